@@ -126,6 +126,19 @@ RECURSIVE SkipRun(_, _)
 SkipRun(a, start) ==
   IF start > 0 /\ start < Len(a) /\ At(a, start - 1).d = At(a, start).d THEN SkipRun(a, start + 1) ELSE start
 
+\* The step shared by collapse and by the first loop of merge: "merge the last
+\* (up to D) nodes, but do not split a run of equal depth".  As coded
+\* (Variant "ok") the start index can run up to the last node, and mergeNodes
+\* is then called with a single node: its panic.  Variant "fix_lone" is the
+\* proposed repair (fixes-proposed/C16-lone-node-panic.diff): when the last
+\* node stands alone behind a full run of D equal-depth nodes, that run is
+\* merged first.
+MergeLastS(t) ==
+  LET n == Len(t)
+      start == SkipRun(t, Max(n - D, 0))
+  IN IF Variant = "fix_lone" /\ n - start < 2 THEN MergeNodesS(t, n - 1 - D, n - 1)
+     ELSE MergeNodesS(t, start, n)
+
 \* writer.go: the loop at the end of AppendPage*/AppendPageDict
 RECURSIVE AppendLoopS(_)
 AppendLoopS(t) ==
@@ -138,7 +151,7 @@ AppendLoopS(t) ==
 RECURSIVE CollapseS(_)
 CollapseS(t) ==
   IF Len(t) > 1 /\ ~HasBad(t)
-  THEN UNION {CollapseS(t2) : t2 \in MergeNodesS(t, SkipRun(t, Max(Len(t) - D, 0)), Len(t))}
+  THEN UNION {CollapseS(t2) : t2 \in MergeLastS(t)}
   ELSE {t}
 
 \* subtree.go: merge(a, b)
@@ -146,7 +159,7 @@ RECURSIVE MergePhase1S(_, _)
 MergePhase1S(a, nextDepth) ==
   IF HasBad(a) THEN {a}
   ELSE IF Len(a) > 1 /\ a[Len(a)].d < nextDepth
-  THEN UNION {MergePhase1S(a2, nextDepth) : a2 \in MergeNodesS(a, SkipRun(a, Max(Len(a) - D, 0)), Len(a))}
+  THEN UNION {MergePhase1S(a2, nextDepth) : a2 \in MergeLastS(a)}
   ELSE {a}
 
 RECURSIVE Back(_, _, _)
@@ -388,7 +401,10 @@ NoPanic == \A w \in W : ~HasBad(tail[w])
 TailInv ==
   \A w \in W : /\ \A i \in 1..Len(tail[w]) - 1 : tail[w][i].d >= tail[w][i + 1].d
                /\ \A i \in Idx(tail[w]) : Cardinality({j \in Idx(tail[w]) : tail[w][j].d = tail[w][i].d}) <= D
-\* the field comment's stronger claim ("at most maxDegree-1 subtrees of this depth")
+\* the field comment's stronger claim ("at most maxDegree-1 subtrees of this depth");
+\* not an invariant: TLC finds tails of a closed sub-range with D nodes of one
+\* depth (D = 2: depths <<2, 2>> after merge), which checkInvariants allows and
+\* which is harmless (collapse/merge cope).  Kept for documentation, not checked.
 TailInvStrict ==
   \A w \in W : \A i \in Idx(tail[w]) : Cardinality({j \in Idx(tail[w]) : tail[w][j].d = tail[w][i].d}) < D
 \* depth is an upper bound of the real height
